@@ -78,6 +78,7 @@ def walk(trace_toks):
         if it["kind"] == 15:
             for k, inv in enumerate(it["invs"]):
                 for op in inv["ops"]:
+                    op["_entry_placement"] = inv["placement"]     # placement seen on entry of the callback invocation that issued the operation
                     recs.append(("cb", op["kind"], op, k))
             recs.append(("call", 15, it, -1))
         else:
@@ -97,6 +98,16 @@ def parse_obs(obs):
     return out, final
 
 
+def _set_placement(cur, kind, it):
+    """effect of an ACCEPTED placement setter (8 setCellX, 9 setCellY, 10 setCellOrientation, 14 setSolution) on the flat list x y o ..."""
+    n = len(cur) // 3
+    a = it["args"][0]
+    if kind in (8, 9, 10) and len(a) == n:
+        cur[{8: 0, 9: 1, 10: 2}[kind]::3] = a
+    elif kind == 14 and len(a) == 3 * n:
+        cur[:] = a
+
+
 def statement_on_impl(line, trace, obs):
     """the property's own statement evaluated on what the implementation did (independent of the model);
     returns a list of reasons (empty = holds)"""
@@ -110,9 +121,30 @@ def statement_on_impl(line, trace, obs):
         return ["observation string does not match the trace (%s entries for %d operations)" % (None if ent is None else len(ent), len(recs))]
     prev_hash, prev_inv = None, None
     seen_call, last_cls = False, None
+    # the placement (x y orientation of every cell) the public state holds: at top level, and inside the current callback invocation
+    cur_top = [v for i in range(len(st["x"])) for v in (st["x"][i], st["y"][i], st["o"][i])]
+    cur_cb, cb_k = None, None
     for (where, kind, it, k), (tag, res, chk, h) in zip(recs, ent):
         if chk != 1:
             why.append("Circuit::check() fails after operation kind %d (%s)" % (kind, where))
+        # EVERY placement call of the scenario (the first one, further ones after setters, nested ones issued by a callback): a legalization
+        # that failed (class 2) has left x, y AND orientation of every cell as they were right before that call
+        if where == "cb":
+            if cb_k != k:
+                cb_k, cur_cb = k, list(it["_entry_placement"])
+            if kind == 15:
+                if it["cls"] == 2 and it["stage"] in (1, 2) and it["after"] != cur_cb:
+                    why.append("legalization (placement call issued inside callback invocation %d) failed but the placement changed: before %s after %s"
+                               % (k, cur_cb, it["after"]))
+                cur_cb = list(it["after"])
+            elif res == 0:
+                _set_placement(cur_cb, kind, it)
+        elif where == "call":
+            if seen_call and it["cls"] == 2 and it["stage"] in (1, 2) and not it["invs"] and it["after"] != cur_top:
+                why.append("legalization (a further placement call of the scenario) failed but the placement changed: before %s after %s" % (cur_top, it["after"]))
+            cur_top, cb_k = list(it["after"]), None
+        elif res == 0:
+            _set_placement(cur_top, kind, it)
         if where == "cb":
             if kind in GUARDED:
                 if res not in (1, 2):
@@ -127,7 +159,7 @@ def statement_on_impl(line, trace, obs):
                 if it["cls"] == 2 and it["stage"] in (1, 2):
                     before = [v for i in range(len(st["x"])) for v in (st["x"][i], st["y"][i], st["o"][i])]
                     if it["after"] != before:
-                        why.append("legalization failed but the placement changed")
+                        why.append("legalization failed but the placement changed (x y orientation per cell: before %s after %s)" % (before, it["after"]))
             prev_hash, last_cls = None, it["cls"]
         else:
             if seen_call and res == 1:
@@ -206,9 +238,15 @@ def evaluate(lines, impl, model):
         dist["class"][ck] = dist["class"].get(ck, 0) + 1
         dist["callbacks"][str(min(ninv, 12))] = dist["callbacks"].get(str(min(ninv, 12)), 0) + 1
         try:
-            _, items, recs = walk(trace.split())
+            st0, items, recs = walk(trace.split())
         except (IndexError, ValueError):
-            recs = []
+            st0, recs = None, []
+        if st0 is not None and any(o in (8, 9) and not f for o, f in zip(st0["o"], st0["fixed"])):
+            dist["runs_with_a_movable_cell_of_orientation_INVALID_or_UNKNOWN"] = dist.get("runs_with_a_movable_cell_of_orientation_INVALID_or_UNKNOWN", 0) + 1
+            if cls == 2:
+                dist["of_them_with_a_failed_legalization"] = dist.get("of_them_with_a_failed_legalization", 0) + 1
+        dist["placement_calls_with_a_failed_legalization"] = dist.get("placement_calls_with_a_failed_legalization", 0) + \
+            sum(1 for rc in recs if rc[1] == 15 and rc[2]["cls"] == 2)
         g = sum(1 for rc in recs if rc[0] == "cb" and rc[1] in GUARDED)
         dist["ops_in_callbacks"] += sum(1 for rc in recs if rc[0] == "cb")
         dist["guarded_in_callbacks"] += g
@@ -274,6 +312,12 @@ def run(ctx):
     base = common.corpus("C10", ("BZ ",))
     for s in seeds:
         base += common.harness_gen(harness, ["bz", s, n // len(seeds)])
+    # scenarios whose movable cells carry the special orientation values INVALID / UNKNOWN, mostly with a legalization that fails (a cell wider
+    # than every row, over-full rows): 'a failed legalization leaves the placement as it was' includes the orientation
+    nbo = 800 if ctx.quick else 12000
+    nbase_bz = len(base)
+    for s in seeds:
+        base += common.harness_gen(harness, ["bo", s + 7, nbo // len(seeds)])
     lines, impl, model = execute(ctx, harness, driver, base)
     mism, ofail, crashed, nontriv, dist = evaluate(lines, impl, model)
     for l, obs, why in ofail[:3]:
@@ -317,7 +361,12 @@ def run(ctx):
                     "what the algorithms compute is not modelled: the model is run with the placements the implementation exposed (theorems hold for every oracle)",
                     "addNet/setNets argument tests (sizes, limits start at 0 and sorted, pins on existing cells) are modelled and exercised with acceptable and unacceptable arguments"],
                 "evaluations": len(lines), "distinct_nontrivial": len(nontriv),
-                "rule": "seeded random circuits (1-6 rows, 1-8 cells, nets, fixed cells, polarities, utilisation 20-115% so that legalization also fails), stage uniform in "
+                "rule": "stream bo (800 instances in the quick tier): the same scenarios on circuits whose movable unturned cells carry the SPECIAL orientation values INVALID (8) / UNKNOWN (9) "
+                        "(each such cell with probability 1/2, at least one; setCellOrientation / setSolution accept every enum value), 40 % with one movable cell wider than every row, "
+                        "30 % over-full (row-high movable cells as wide as the widest row, one more than there are rows), 30 % as generated; stage legalize 45 % / placeDetailed 45 % / "
+                        "placeGlobal 10 %; 'a failed legalization left the placement as it was' is evaluated on x, y AND orientation of every cell for EVERY placement call of a "
+                        "scenario with outcome class 2 (the first call, further calls after setters, calls issued inside a callback), against the placement right before that call. "
+                        "stream bz: seeded random circuits (1-6 rows, 1-8 cells, nets, fixed cells, polarities, utilisation 20-115% so that legalization also fails), stage uniform in "
                         "{global, legalize, detailed}, 10% without callback, 20% with one of 6 invalid parameter sets, 20% with one of 10 parameter sets AT THE BOUNDARY of what "
                         "ColoquinteParameters::check() accepts (detailed.nbPasses 0, maxNbSteps 1, detailed windows of one row / zero cells, rough legalization 0 steps and "
                         "reopt sizes 1, bin size 1 and 25, tolerances / blendings / noise / exponents at both ends), also used by the nested / further call, "
